@@ -79,7 +79,7 @@ impl Prop for C07 {
 
     fn strategy(_leg: &str, tier: Tier) -> BoxedStrategy<Case> {
         (
-            gen::weighted_isize(tier.pick(14, 48)),
+            gen::weighted_isize_big_rate(tier.pick(14, 48), 80),
             any::<u16>(),
             any::<u8>(),
             any::<u8>(),
